@@ -64,6 +64,7 @@ pub fn prop() -> HistProp {
             Box::new(C14 { updates: 0, claims: 0, delivered: 0, claimed: 0, balance_change_between_updates: false, change_since_update: false, max_holders: 0 })
         },
         extra: Some((5, |t| reward_scenario_strategy(&reward_profile(t), cfg_strategy()))),
+        many_batches: 0,
     }
 }
 
